@@ -5,6 +5,7 @@ import (
 	"math"
 	"strconv"
 	"strings"
+	"unicode/utf8"
 
 	dtpb "github.com/google/fhir/go/proto/google/fhir/proto/r4/core/datatypes_go_proto"
 	"github.com/shopspring/decimal"
@@ -63,13 +64,32 @@ func ParseString(input string) (String, error) {
 		"\\f", "\f",
 		"\\\\", "\\",
 		"\\", "",
-		// TODO PHP-5581
 	}
 	input = strings.TrimPrefix(input, "'")
 	input = strings.TrimSuffix(input, "'")
 	replacer := strings.NewReplacer(escSequences...)
-	escapedString := replacer.Replace(input)
-	return String(escapedString), nil
+	// Unicode escapes (\uXXXX) are decoded here; the text between them goes through the replacer.
+	var out []byte
+	start := 0
+	for i := 0; i+5 < len(input); i++ {
+		if input[i] != '\\' {
+			continue
+		}
+		if input[i+1] != 'u' {
+			i++ // skip the escaped character (it may be a backslash)
+			continue
+		}
+		code, err := strconv.ParseUint(input[i+2:i+6], 16, 32)
+		if err != nil {
+			continue
+		}
+		out = append(out, replacer.Replace(input[start:i])...)
+		out = utf8.AppendRune(out, rune(code))
+		start = i + 6
+		i += 5
+	}
+	out = append(out, replacer.Replace(input[start:])...)
+	return String(out), nil
 }
 
 // Equal returns true if the input value is a System String,
